@@ -37,7 +37,9 @@ import (
 	"github.com/glyphlang/glyph/internal/verif/vk"
 )
 
-var c14Kinds = []string{"err", "panic", "stmt", "norows", "cancel_nil", "cancel_err", "goexit"}
+// runtime.Goexit inside the callback is outside the property's quantifier (the callback neither returns nor
+// panics), so it is not enumerated; the executor still supports it for replays.
+var c14Kinds = []string{"err", "panic", "stmt", "norows", "cancel_nil", "cancel_err"}
 
 func c14Progs(letters string, maxLen int) []string {
 	out := []string{""}
@@ -121,7 +123,7 @@ func c14Levels(thorough bool, tgt c14Target) [3][]c14Op {
 	if !thorough {
 		add(0, c14TxOps(c14Progs("iudxq", 3), c14Kinds)...)
 		add(0, c14TxOps([]string{"o", "oi", "io"}, c14Kinds)...)
-		add(0, c14NestOps([]string{"i"}, []string{"i", "u"}, []string{"", "err", "panic", "goexit"}, []string{"", "err", "panic"}, []bool{false, true})...)
+		add(0, c14NestOps([]string{"i"}, []string{"i", "u"}, []string{"", "err", "panic"}, []string{"", "err", "panic"}, []bool{false, true})...)
 		add(0, c14BulkOps(append(c14Progs("gsc", 3), "n", "gn", "ng", "gng"))...)
 		add(0, stmt)
 		add(1, c14TxOps(c14Progs("iux", 1), c14Kinds)...)
@@ -142,7 +144,7 @@ func c14Levels(thorough bool, tgt c14Target) [3][]c14Op {
 		}
 	}
 	add(0, c14TxOps(withO, c14Kinds)...)
-	add(0, c14NestOps([]string{"i", "ui"}, []string{"", "i", "u", "q"}, []string{"", "err", "panic", "goexit", "stmt", "cancel_nil"}, []string{"", "err", "panic", "goexit"}, []bool{false, true})...)
+	add(0, c14NestOps([]string{"i", "ui"}, []string{"", "i", "u", "q"}, []string{"", "err", "panic", "stmt", "cancel_nil"}, []string{"", "err", "panic"}, []bool{false, true})...)
 	add(0, c14BulkOps(c14Progs("gscn", 4))...)
 	add(0, stmt)
 	add(1, c14TxOps(append(c14Progs("iuxoqd", 1), "iu", "ui"), c14Kinds)...)
